@@ -1679,3 +1679,28 @@ theorem readAll_kLine_any_file (n : Nat) (hn : 0 < n) (mode : Mode) (file : Byte
 example : (readAll (Fmt.kLine 4) true .seek [64,97,10,65,10,43,10,73,10,64,98,10] 3).flatten = [64,97,10,65,10,43,10,73,10] := by decide
 
 end C01
+
+namespace C01
+
+/-- **C01.chunks_eq_whole_kLine_any_file** — FASTQ / two-line FASTA / delimited files of ANY content holding at least one
+record's worth of lines: for every chunk size and both modes the chunks of `read_chunks` concatenate to exactly what
+`read()` delivers (no well-formedness hypothesis: a truncated last record is left out by both). -/
+theorem chunks_eq_whole_kLine_any_file (n : Nat) (hn : 0 < n) (mode : Mode) (file : Bytes) (k : Nat) (hk : 0 < k)
+    (hc : n ≤ countNL (norm file)) :
+    (readAll (Fmt.kLine n) true mode file k).flatten = readWhole (Fmt.kLine n) file := by
+  rw [(readAll_kLine_any_file n hn mode file k hk).1]
+  have hne : file.isEmpty = false := by
+    cases file with
+    | nil => simp [norm, countNL] at hc; omega
+    | cons x xs => rfl
+  unfold readWhole
+  simp only [hne, Bool.false_eq_true, ↓reduceIte]
+  have hfix : fixEnd (Fmt.kLine n) file = norm file := by
+    unfold fixEnd norm
+    simp [hne, Fmt.kLine]
+  rw [hfix]
+  rfl
+
+example : (readAll (Fmt.kLine 2) true .carry [62,97,10,65,10,62,98] 3).flatten = readWhole (Fmt.kLine 2) [62,97,10,65,10,62,98] := by decide
+
+end C01
